@@ -72,6 +72,38 @@ def interleaved_objects(ctx, rng, n):
         ctx.case("interleaved_objects", key=str(inp), sample={"objects": k, "segments": [len(sg) for _p, sg in streams]})
 
 
+def slow_segments(ctx, rng, n):
+    """the stream arrives SLOWLY: seconds, minutes or hours between two TCP segments (virtual clock - the library's
+    `datetime.now()` and the loop time are both driven by it).  What has been received stays received: each packet is
+    delivered when its last byte arrives, however long that takes."""
+    import asyncio as _a
+    for _ in range(n):
+        packets = [mk_packet(rng, rng.choice([0, 1, 5, 8, 16, 33]), seeded=rng.random() < 0.5) for _ in range(rng.randrange(1, 4))]
+        data = garbage(rng) + b"".join(packets)
+        cuts = sorted(rng.sample(range(1, len(data)), min(len(data) - 1, rng.randrange(1, 5))))
+        segs = [data[a:b] for a, b in zip([0] + cuts, cuts + [len(data)])]
+        gaps = [rng.choice([0.0, 0.5, 1.9, 2.1, 3.0, 30.0, 3600.0, 50000.0]) for _ in segs]
+        got = []
+
+        async def scenario(loop, net):
+            p = lan._LanProtocolV3()
+            for sg, gp in zip(segs, gaps):
+                await _a.sleep(gp)
+                p.data_received(bytes(sg))
+                q = getattr(p, "_queue", None)
+                while isinstance(q, _a.Queue) and not q.empty():
+                    got.append(q.get_nowait())
+        try:
+            vloop.run(scenario)
+        except Exception as e:  # noqa
+            got = ["exc:" + type(e).__name__]
+        inp = {"segments": [hx(x) for x in segs], "gaps_s": gaps}
+        if got != packets:
+            ctx.violate("slow_segments", inp, [hx(x) if isinstance(x, bytes) else x for x in got], [hx(x) for x in packets],
+                        "packets of a slowly arriving stream are not delivered exactly once, complete and in order")
+        ctx.case("slow_segments", key=str(inp), sample={"segments": len(segs), "gaps": gaps})
+
+
 def mk_packet(rng, n, seeded=False):
     """a V3-framed packet with an n-byte body after the 6-byte header: size field = n - 2"""
     body = bytearray(rng.randrange(256) for _ in range(n + 2))
@@ -214,6 +246,7 @@ def run(ctx):
         check(ctx, "random_cuts", g, packets, tuple(sorted(rng.sample(range(1, total), k))))
         check(ctx, "coalesced", g, packets, ())
     interleaved_objects(ctx, rng, 60 if not thorough else 1500)
+    slow_segments(ctx, rng, 40 if not thorough else 600)
     through_lan(ctx, rng, 25 if not thorough else 300)
 
 
